@@ -392,9 +392,6 @@ func VerifC13Presence() {
 		o1.Consumes = []string{"application/json", "application/xml"}
 		o2.Consumes = []string{"application/json"}
 		s1, s2 = vSpecWithOp("/a", o1), vSpecWithOp("/a", o2)
-		if vKnown("C13-D7", true) {
-			return
-		}
 	default: // a path-level required parameter is added
 		pi := s2.Paths.Paths["/a"]
 		pi.Parameters = []spec.Parameter{q("n", true)}
